@@ -1246,7 +1246,7 @@ def gen_value(rng, depth: int, hashable: bool = False) -> dict:
         return _V(kind, a=_distinct([gen_value(rng, depth - 1, True) for _ in range(n)]))
     if kind in ("Dict", "OrderedDict", "DefaultDict", "Counter"):
         ks = _distinct([gen_value(rng, min(depth - 1, 1), True) for _ in range(n)])
-        xs = [_V("Int", n=rng.randrange(1, 4)) if kind == "Counter" else gen_value(rng, depth - 1) for _ in ks]
+        xs = [_V("Int", n=rng.randrange(-2, 4)) if kind == "Counter" else gen_value(rng, depth - 1) for _ in ks]
         return _V(kind, s=rng.choice(["int", "list"]) if kind == "DefaultDict" else "",
                   a=[_V("Pair", a=[k, x]) for k, x in zip(ks, xs)])
     if kind == "NdArray":
